@@ -164,6 +164,23 @@ fn step_log() { let a: i64 = kani::any(); let b: i64 = kani::any();
 fn step_root() { let n: i64 = kani::any(); let x: i64 = kani::any();
     match ok(eval(Node::Root(num(n), num(x)))) { Some(v) => assert!(unsafe { CALLS == 1 && TAG == 20 && same(A0, x as f64) && v == RES as i64 }, "root(n, x) = powf(x, _): the base is the second argument"), None => assert!(false, "never Err") } }
 
+// ---- the tokenizer on concrete literals at the edge of i64 (CBMC cannot run the tokenizer on symbolic text; a concrete text is a point check,
+// a second line for the literal arm when its text leaves what the Verus unit i64-tok can read)
+fn first_token(text: &str) -> Option<super::token::Token> { super::tokenizer::Tokenizer::new(text).next() }
+// @obligation owners=C06,C19,C01 fn=eval_i64::tokenizer::Tokenizer::next/literal bounded="the one literal 9223372036854775807 (concrete): the largest i64 lexes to itself"
+#[kani::proof]
+#[kani::unwind(24)]
+fn tok_literal_max() { assert!(first_token("9223372036854775807") == Some(super::token::Token::Num(i64::MAX)), "i64::MAX lexes to itself"); }
+// @obligation owners=C06,C19,C01 fn=eval_i64::tokenizer::Tokenizer::next/literal bounded="the one literal 9223372036854775808 (concrete): outside i64, rejected - never wrapped, never a panic"
+#[kani::proof]
+#[kani::unwind(24)]
+fn tok_literal_overflow() { assert!(first_token("9223372036854775808").is_none(), "a literal outside i64 is rejected"); }
+
+// @obligation owners=C13,C06 fn=eval_i64::tokenizer::Tokenizer::next/superscript bounded="the one superscript run ¹⁰ (concrete)"
+#[kani::proof]
+#[kani::unwind(24)]
+fn tok_superscript_one_zero() { assert!(first_token("¹⁰") == Some(super::token::Token::Superscript(10)), "the run ¹⁰ is the exponent 10"); }
+
 // ---- canaries: must FAIL ----------------------------------------------------------------------------------------------
 #[kani::proof]
 fn canary_add_wraps() { let a: i64 = kani::any(); let b: i64 = kani::any();
